@@ -175,6 +175,17 @@ def sub_list():
     return dedup(out)
 
 
+def seq_list():
+    """(lhs index type, lhs pattern, rhs index type, rhs pattern) for layout_stride::mapping::operator== across index types and
+    extents types (both operand orders are evaluated on every line, so each pair has the narrow type on the left once)"""
+    return [("u8", (2, 2), "i32", (2, 2)), ("u8", (-1, -1), "i32", (-1, -1)), ("i8", (-1,), "i64", (-1,)),
+            ("u8", (-1, -1, -1), "i32", (-1, -1, -1)), ("i8", (-1, -1, -1), "u16", (-1, 2, -1)), ("i16", (-1, -1), "i32", (2, -1)),
+            ("u16", (-1, 3), "u64", (-1, -1)), ("i32", (-1, -1), "i64", (-1, -1)), ("i32", (2, 3), "u8", (2, 3)),
+            ("i64", (-1, -1), "i8", (-1, -1)), ("u8", (), "i32", ()), ("i16", (-1, -1, -1, -1), "u32", (-1, -1, -1, -1)),
+            ("u8", (2, -1, 4), "i64", (-1, -1, -1)), ("i32", (2, 3), "i32", (2, 3)), ("u8", (-1, -1), "u8", (-1, -1)),
+            ("u32", (-1, -1), "i32", (-1, -1))]
+
+
 def span_ct_list():
     """(static extent or -1, op, Offset, Count or -1) for span of length 0..6"""
     out = []
@@ -199,7 +210,7 @@ NEXT = 3          # translation units for the extents-only instantiations
 
 
 def inst_hash():
-    return hashlib.sha256(repr((type_list(True), map_type_list(True), conv_list(True), span_ct_list(), sub_list(), NMAP, NEXT)).encode()).hexdigest()[:16]
+    return hashlib.sha256(repr((type_list(True), map_type_list(True), conv_list(True), span_ct_list(), sub_list(), seq_list(), NMAP, NEXT)).encode()).hexdigest()[:16]
 
 
 def emit_inst(f):
@@ -248,6 +259,11 @@ def emit_inst(f):
     for it, p, ks in sub_list():
         f.write('C19_SUB("%s:%s:%s", (%s), %s%s)\n' % (it, pat_str(p), ",".join(ks) if ks else "-", ", ".join(kind_type(k) for k in ks),
                                                       CTYPE[it], targs(p)))
+    f.write("#endif\n")
+    f.write("#ifdef C19_SEQ\n")
+    for a, pa, b, pb in seq_list():
+        f.write('C19_SEQ("%s:%s==%s:%s", (etl::extents<%s%s>), (etl::extents<%s%s>))\n'
+                % (a, pat_str(pa), b, pat_str(pb), CTYPE[a], targs(pa), CTYPE[b], targs(pb)))
     f.write("#endif\n")
     f.write("#ifdef C19_SPAN\n")
     for se, op, o, c in span_ct_list():
@@ -299,6 +315,112 @@ def make_strides(rnd, ext, exhaustive=False):
         strs[k] = bound + pad
         bound = strs[k] * ext[k]
     return strs, list(reversed(order))
+
+
+def stride_ok(ext, strs):
+    """the uniqueness precondition of [mdspan.layout.stride.cons]: ordered by stride, every stride is at least the span of the
+    faster dimensions (dimensions of extent <= 1 contribute no span constraint beyond their own stride)"""
+    order = sorted(range(len(ext)), key=lambda k: (strs[k], ext[k]))
+    bound = 1
+    for k in order:
+        if strs[k] < bound:
+            return False
+        bound = strs[k] * ext[k] if ext[k] > 0 else bound
+    return True
+
+
+def contig_strides(ext, left):
+    return [prod(ext[:k]) if left else prod(ext[k + 1:]) for k in range(len(ext))]
+
+
+def seq_lines(rnd, thorough):
+    """`seq` lines: see RULE"""
+    out = []
+
+    def line(a, pa, b, pb, ext, oext, str_, olay, ostr, tag):
+        ln = "seq it=%s pat=%s oit=%s opat=%s olay=%s ext=%s oext=%s str=%s" % (a, pat_str(pa), b, pat_str(pb), olay, fmt_list(ext),
+                                                                              fmt_list(oext), fmt_list(str_))
+        if olay == "stride":
+            ln += " ostr=%s" % fmt_list(ostr)
+        out.append((ln, "seq/" + tag))
+
+    def rep_ok(it, ext, strs):
+        return max(list(ext) + list(strs) + [0]) <= it_max(it) and req_stride(ext, strs) <= it_max(it)
+
+    for a, pa, b, pb in seq_list():
+        r = len(pa)
+        narrow_left = ITS[a][0] <= ITS[b][0]
+        nt, wt = (a, b) if narrow_left else (b, a)
+        mod = 2 ** ITS[nt][0]
+        fixed = [max(v, w) for v, w in zip(pa, pb)]
+        shapes = list(itertools.product(*[[f] if f >= 0 else [0, 1, 2, 3, 4] for f in fixed]))
+        if len(shapes) > (60 if thorough else 25):
+            shapes = [sh for sh in shapes if all(x in (0, 4) for x, f in zip(sh, fixed) if f < 0)][:6] + rnd.sample(shapes, 60 if thorough else 25)
+        for ext in shapes:
+            ext = list(ext)
+            if not fits(a, ext) or not fits(b, ext):
+                continue
+            for d in range(3 if thorough else 2):
+                sn, _ = make_strides(rnd, ext, exhaustive=(d == 0))
+                if not rep_ok(nt, ext, sn):
+                    continue
+                variants = [("same", list(sn))]
+                if r > 0:
+                    top = max(range(r), key=lambda k: (sn[k], -k))
+                    v = list(sn)
+                    v[top] += mod                                # congruent modulo 2^bits of the narrow index type
+                    variants.append(("congruent", v))
+                    k = rnd.randrange(r)
+                    v = list(sn)
+                    v[k] += mod * rnd.choice([1, 2, 3])
+                    variants.append(("congruent", v))
+                    v = list(sn)
+                    v[rnd.randrange(r)] += 1
+                    variants.append(("plus1", v))
+                    v = list(sn)
+                    v[top] += mod - 1 if mod - 1 + sn[top] <= it_max(wt) else 2
+                    variants.append(("near", v))
+                for tag, sw in variants:
+                    if not rep_ok(wt, ext, sw) or not stride_ok(ext, sw):
+                        continue
+                    ls, rs = (sn, sw) if narrow_left else (sw, sn)
+                    line(a, pa, b, pb, ext, ext, ls, "stride", rs, tag)
+                # another extent at a position that is dynamic on both sides
+                dynpos = [k for k in range(r) if pa[k] < 0 and pb[k] < 0]
+                if dynpos and d == 0:
+                    k = rnd.choice(dynpos)
+                    e2 = list(ext)
+                    e2[k] = (ext[k] + rnd.choice([1, 2])) % 5
+                    if fits(b, e2) and rep_ok(b, e2, sn) and rep_ok(a, ext, sn):
+                        line(a, pa, b, pb, ext, e2, sn, "stride", sn, "ext")
+                # against layout_left / layout_right of the same extents: random strides, and the strides of that layout
+                for olay in ("left", "right"):
+                    cs = contig_strides(ext, olay == "left")
+                    if rep_ok(a, ext, sn) and d == 0:
+                        line(a, pa, b, pb, ext, ext, sn, olay, None, "contig")
+                    if rep_ok(a, ext, cs) and d == 0:
+                        line(a, pa, b, pb, ext, ext, cs, olay, None, "contig-same")
+        # an empty index space makes every stride vector valid (required_span_size 0): extents whose layout_left / layout_right
+        # strides exceed the range of the lhs index type, against lhs strides that are those strides modulo 2^bits
+        if r >= 2 and all(v < 0 for v in fixed) and ITS[a][0] < ITS[b][0] and ITS[a][0] <= 16:
+            amax = it_max(a)
+            big = [amax, amax // 2 + 3, 100 if amax >= 100 else amax, 3, 2]
+            for zpos in range(r):
+                for rep in range(4 if thorough else 2):
+                    ext = [0 if k == zpos else rnd.choice(big) for k in range(r)]
+                    if not fits(b, ext):
+                        continue
+                    for olay in ("left", "right"):
+                        cs = contig_strides(ext, olay == "left")
+                        if max(cs) <= amax or max(cs) > it_max(b):
+                            continue
+                        ls = [x % (2 ** ITS[a][0]) for x in cs]
+                        if max(ls) > amax:
+                            continue
+                        line(a, pa, b, pb, ext, ext, ls, olay, None, "contig-congruent")
+                        line(a, pa, b, pb, ext, ext, ls, "stride", cs, "congruent")
+                        line(a, pa, b, pb, ext, ext, ls, "stride", ls, "same")
+    return out
 
 
 RULE = ("One `map` case = one extents object (index type, static/dynamic pattern, extents) under one layout "
@@ -367,13 +489,28 @@ THEOREMS = {
                             "transpose_observers_eq", "transpose_stride_mapping_eq", "transpose_stride_observers_eq",
                             "mdspan_access_transpose_stride_eq")],
     "mda": [P + x for x in ("mdarray_ctor_value_eq", "mdarray_ctor_container_eq", "mdarray_ctor_stride_eq",
-                            "mdspan_size_empty_std", "mdspan_extents_eq", "mdarray_to_mdspan_eq")],
+                            "mdspan_size_empty_std", "mdspan_extents_eq", "mdarray_to_mdspan_eq",
+                            "mdarray_copy_move_assign_swap_eq", "mdarray_swap_stride_eq", "mdarray_swap_contiguous_eq",
+                            "mdarray_assign_eq", "mdarray_assign_contiguous_eq")],
+    "dflt": [P + x for x in ("default_mapping_extents_eq", "stride_default_ctor_eq", "stride_consistent", "required_span_size_eq",
+                             "mapIdx_closed_form", "stride_eq_contiguous", "stride_is_exhaustive_eq")],
+    "seq": [P + x for x in ("stride_eq_stride", "stride_eq_contiguous", "extents_eq_iff")],
     "msz": [P + x for x in ("mdspan_size_empty_std", "size_fits_of_fits", "mdspan_extents_eq")],
     "conv": [P + "conv_extent_eq", P + "extents_eq_iff"],
     "sub": [P + "submdspan_extents_eq", P + "submdspan_extents_slices_eq"],
     "span": [P + x for x in ("subspan_eq", "subspanT_eq", "first_eq", "last_eq")],
     "stride_members": [P + "stride_required_span_size_eq", P + "stride_is_exhaustive_eq"],
 }
+
+
+def other_vals(rnd, it, p, vals):
+    """extents of a second object of the same extents type: another value (0..4) at every dynamic position, within the
+    preconditions (representable, at most 256 elements); `vals` itself when the pattern has no dynamic position"""
+    for _ in range(8):
+        v2 = [v if q >= 0 else rnd.choice([x for x in range(5) if x != v]) for v, q in zip(vals, p)]
+        if fits(it, v2) and prod(v2) <= 256:
+            return v2
+    return list(vals)
 
 
 def dyn_choices(rnd, p, full, cap):
@@ -428,11 +565,14 @@ def generate(tier, seed):
                     k += 1
                     add("map lay=%s it=%s pat=%s ext=%s ctor=%s form=%s"
                         % (lay, it, pat_str(p), fmt_list(vals), ("dyn", "all")[k % 2], forms_all[k % 3]), "map/%s" % lay)
-            # mdarray constructors (one line per shape and layout)
+            # mdarray constructors (one line per shape and layout); ext2: the extents of a second object, other values at the
+            # dynamic positions (copy / move / assignment / swap between objects with different mappings)
+            vals2 = other_vals(rnd, it, p, vals)
             if prod(vals) <= 256:
                 for lay in ("left", "right"):
                     k += 1
-                    add("mda lay=%s it=%s pat=%s ext=%s val=%d" % (lay, it, pat_str(p), fmt_list(vals), (7, -3, 1)[k % 3]), "mda/%s" % lay)
+                    add("mda lay=%s it=%s pat=%s ext=%s val=%d ext2=%s" % (lay, it, pat_str(p), fmt_list(vals), (7, -3, 1)[k % 3], fmt_list(vals2)),
+                        "mda/%s" % lay)
             # explicit strides: permuted, padded; several draws per shape
             ndraw = (3 if thorough else 1) if r >= 3 else (4 if thorough else 2)
             if r == 0:
@@ -451,8 +591,27 @@ def generate(tier, seed):
                         % (it, pat_str(p), fmt_list(vals), ("dyn", "all")[k % 2], ("array", "span")[k % 2], fmt_list(strs),
                            fmt_list(perm)), "map/tstride")
                 if d == 0 and req_stride(vals, strs) <= 256:
-                    add("mda lay=stride it=%s pat=%s ext=%s val=%d str=%s perm=%s"
-                        % (it, pat_str(p), fmt_list(vals), (7, -3, 1)[k % 3], fmt_list(strs), fmt_list(perm)), "mda/stride")
+                    # the second object: other dynamic extents (every second line: the same extents) and other strides
+                    v2 = list(vals2 if k % 2 else vals)
+                    for _ in range(8):
+                        strs2, perm2 = make_strides(rnd, v2, exhaustive=False)
+                        if (strs2 != strs or r == 0) and req_stride(v2, strs2) <= 256 and max(strs2 + [0]) <= it_max(it):
+                            break
+                    else:
+                        strs2, perm2 = make_strides(rnd, v2, exhaustive=True)
+                    if req_stride(v2, strs2) > min(256, it_max(it)) or max(strs2 + [0]) > it_max(it):
+                        v2, strs2, perm2 = list(vals), list(strs), list(perm)
+                    add("mda lay=stride it=%s pat=%s ext=%s val=%d str=%s perm=%s ext2=%s str2=%s perm2=%s"
+                        % (it, pat_str(p), fmt_list(vals), (7, -3, 1)[k % 3], fmt_list(strs), fmt_list(perm), fmt_list(v2), fmt_list(strs2),
+                           fmt_list(perm2)), "mda/stride")
+    # ---- default-constructed mappings (layout_left / layout_right / layout_stride; mdspan / mdarray default constructors)
+    for it, p in map_type_list(THOROUGH_BUILD)[0]:
+        vals = [v if v >= 0 else 0 for v in p]
+        if fits(it, vals):
+            add("dflt it=%s pat=%s ext=%s" % (it, pat_str(p), fmt_list(vals)), "dflt")
+    # ---- layout_stride::mapping::operator== across index types / extents types
+    for ln, tag in seq_lines(rnd, thorough):
+        add(ln, tag)
     # ---- mdspan::size / empty / extents for shapes inside the precondition of the standard (every extent and the SIZE
     # representable) but outside `Fits`: a zero extent among extents whose product is not representable
     for it, p in map_type_list(THOROUGH_BUILD)[0]:
@@ -568,8 +727,8 @@ def _probe_flags():
 
 
 BASE_FLAGS = list(HARNESS_FLAGS)
-# NMAP mapping units, NEXT extents-only units, conv + span unit, main() + dispatcher
-PARTS = list(range(NMAP)) + [100 + j for j in range(NEXT)] + [200, -1]
+# NMAP mapping units, NEXT extents-only units, conv + span + sub unit, seq unit, main() + dispatcher
+PARTS = list(range(NMAP)) + [100 + j for j in range(NEXT)] + [200, 201, -1]
 LINK_STUB = "harness/c19_link.cpp"          # empty translation unit: check.py's own compile step only links the objects
 
 
@@ -620,6 +779,10 @@ def nontrivial(case, rows):
         return "cm=0/" not in r.spec
     if ln.startswith("msz"):
         return True
+    if ln.startswith("dflt"):
+        return "pat=[]" not in ln
+    if ln.startswith("seq"):
+        return "pat=[]" not in ln
     if ln.startswith("conv"):
         return "pat=[]" not in ln and "-1" in ln.split("pat=")[1].split(" ")[0]
     if ln.startswith("span"):
